@@ -71,6 +71,8 @@ class Engine(object):
         from . import externs
         externs.install(self)
         externs.install_tokenize(self)
+        for hook in externs.EXTRA:
+            hook(self)
 
     # ---- bookkeeping -----------------------------------------------------------------------
     def oblige(self, name, st, goal, line=None, kind='check', watch=None):
@@ -204,6 +206,8 @@ class Engine(object):
         nm = n.id
         if nm in st.env:
             return k(st, st.env[nm])
+        if getattr(n, '_is_ghost', False) and nm in st.ghost:
+            return k(st, st.ghost[nm])       # ghost code may read loop-index ghosts
         if nm == 'is_python_3':
             return k(st, mk_bool(True))
         mc = self.repo.module_consts.get((self.cur_module(st), nm))
@@ -585,6 +589,18 @@ class Engine(object):
                 cont(s2, pos, kws)
             self.ev_seq(list(n.args) + kwnodes, s, got)
 
+        if isinstance(f, ast.Name) and f.id == '_assume' and getattr(n, '_is_ghost', False):
+            # ghost assumption (recorded in the evidence as an assumption of this contract)
+            s2 = st.fork()
+            s2.env = dict(st.env)
+            for nm, v in self.entry_state.env.items():
+                s2.env.setdefault(nm, v)
+            ctx = SpecCtx(s2, old=self.entry_state, entry=self.entry_state)
+            fml = self.speceval.formula(n.args[0].value, ctx)
+            st.assume(*ctx.side)
+            st.assume(fml)
+            self.assumptions.append('%s: assumed %s' % (self.cur_spec.name, n.args[0].value))
+            return k(st, NONE_V)
         if isinstance(f, ast.Name) and f.id == '_assert' and getattr(n, '_is_ghost', False):
             # ghost checkpoint: assert (obligation) then assume a spec formula at this program point
             label = n.args[1].value if len(n.args) > 1 else 'checkpoint'
@@ -840,7 +856,7 @@ class Engine(object):
         for (rn, rexpr) in spec.requires:
             f = self.speceval.formula(rexpr, ctx0)
             st.assume(*ctx0.side)
-            self.oblige('call@L%s/%s/requires/%s' % (line, spec.name.split('.')[-1], rn), st, f, line)
+            self.oblige('call/%s/requires/%s' % (spec.name.split('.')[-1], rn), st, f, line)
         caller_env = st.env
 
         def post_state(s):
@@ -866,7 +882,7 @@ class Engine(object):
             pe = p.fork()
             pe.env = dict(args)
             cx = SpecCtx(pe, old=pre)
-            for (en, eexpr) in rs.ensures:
+            for (en, eexpr, _o) in rs.ensures:
                 p.assume(self.speceval.formula(eexpr, cx))
                 p.assume(*cx.side)
             p.note('%s raises %s@%s' % (spec.name.split('.')[-1], rs.exc, line))
@@ -1082,7 +1098,7 @@ class Engine(object):
     def ex_Assert(self, n, st, k):
         def got(s, c):
             def on(s2, b):
-                self.oblige('assert@L%d' % n.lineno, s2, b, n.lineno)
+                self.oblige('assert/%s' % ast.unparse(n.test)[:60].replace('/', '|'), s2, b, n.lineno)
                 s2.assume(b)
                 k(s2)
             self.truth(s, c, on)
@@ -1243,6 +1259,8 @@ class Engine(object):
             st.assume(*ctx.side)
             lname = ('loop%d' % ordinal) if isinstance(ordinal, int) else ('%s(%s)/loop' % (st.ctl.inl[3].name, ordinal))
             o = self.oblige('%s/%s/%s' % (lname, what, iname), st, f, line)
+            o.ctx = ctx
+            o.engine = self
             if what == 'inv_step' and iname in lspec.uses:
                 keep = lspec.uses[iname] | set([iname])
                 tags = getattr(st, 'inv_tags', {})
